@@ -8,8 +8,8 @@
   errors are the documented overflow error and `InvalidCountryCode` for an unknown country; the
   result is a function of arguments and choice record (nothing else — no hash seed, no history).
   Not provable here: that `random.Random(seed)` and `rstr.xeger` are deterministic functions of the
-  seed and honour the pattern; pinned-field read-back and listed-bank membership are checked
-  dynamically with recorded choice records.
+  seed and honour the pattern.  Pinned-field read-back and listed-bank membership are proved in
+  `C13Pinned.lean` (and exercised with recorded choice records).
 -/
 import SV.Model.Random
 import SV.Props.C01
